@@ -1164,20 +1164,27 @@ def _unit_invariance_once(run, rng, name, rep, relabel=None):
         with quiet():
             ref = phonopy.load(unitcell=cell, supercell_matrix=smat, primitive_matrix="P", is_nac=False,
                                force_constants_filename="FORCE_CONSTANTS", log_level=0)
-            refn = phonopy.load(unitcell=cell, supercell_matrix=smat, primitive_matrix="P", is_nac=True, born_filename="BORN",
-                                force_constants_filename="FORCE_CONSTANTS", log_level=0)
+            try:
+                refn = phonopy.load(unitcell=cell, supercell_matrix=smat, primitive_matrix="P", is_nac=True, born_filename="BORN",
+                                    force_constants_filename="FORCE_CONSTANTS", log_level=0)
+            except (ValueError, ZeroDivisionError, FloatingPointError, IndexError) as e:
+                if _site_of(e) is None:
+                    raise
+                refn = e
     finally:
         os.chdir(top)
     ref.run_qpoints(qpts)
     f_plain = ref.get_qpoints_dict()["frequencies"].copy()
     try:
+        if isinstance(refn, Exception):
+            raise refn
         refn.run_qpoints(qpts)
     except (ValueError, ZeroDivisionError, FloatingPointError, IndexError) as e:
         if _site_of(e) is None:
             raise
         # no THz frequencies at all for a well-formed crystal description (eV/Angstrom units, Born charges given)
         run.violation("phonopy.load(calculator)", "nac-frequencies-raise" + ("-left-handed" if qmap is not None else ""),
-                      "%s with Born charges: run_qpoints raises %s: %s at %s" % (name, type(e).__name__, e, _site_of(e)),
+                      "%s with Born charges: phonopy.load / run_qpoints raises %s: %s at %s" % (name, type(e).__name__, e, _site_of(e)),
                       dict(crystal=name, lattice=cell.cell.tolist(), scaled_positions=cell.scaled_positions.tolist(), symbols=list(cell.symbols),
                            supercell_matrix=np.array(smat).tolist(), born=z, dielectric=float(eps[0, 0]), qpoints=qpts))
         return
